@@ -3,6 +3,7 @@
   Model: Atomman/C04.lean.  `K` is any linearly ordered field.
 -/
 import Proofs.C04_Lemmas
+import Proofs.C04_Reps
 import Mathlib.Tactic.Ring
 import Mathlib.Tactic.Linarith
 import Mathlib.Tactic.Positivity
